@@ -11,7 +11,7 @@ import (
 // libNoEffect: library functions modelled natively, none of which writes modelled heap state.
 var libNoEffect = map[string]bool{
 	"fmt.Sprintf": true, "fmt.Sprint": true, "fmt.Errorf": true, "fmt.Fprintf": true, "fmt.Fprint": true, "fmt.Sprintln": true,
-	"errors.New": true, "proto.Size": true, "strings.Repeat": true, "strings.Join": true,
+	"errors.New": true, "proto.Size": true, "proto.Clone": true, "strings.Repeat": true, "strings.Join": true,
 	"sync.Mutex.Lock": true, "sync.Mutex.Unlock": true, "sync.RWMutex.Lock": true, "sync.RWMutex.Unlock": true,
 	"sync.RWMutex.RLock": true, "sync.RWMutex.RUnlock": true,
 	"strings.Builder.String": true, "strings.Builder.WriteString": true, "strings.Builder.WriteByte": true,
@@ -38,6 +38,19 @@ func (tr *Tr) libCall(key string, f *ssa.Function, args []Value, resT types.Type
 	case "proto.Size":
 		iv := tr.asIf(args[0])
 		return Sc{T: tr.protoSize(iv.Val)}, true
+	case "proto.Clone":
+		iv := tr.asIf(args[0])
+		if !isLiteral(iv.Tag) {
+			panic(subsetErr("proto.Clone of a message whose dynamic type is not statically known"))
+		}
+		var n int
+		fmt.Sscan(iv.Tag, &n)
+		pt, ok := tr.g.tagTypes[n].(*types.Pointer)
+		if !ok {
+			panic(subsetErr("proto.Clone of non-pointer message"))
+		}
+		tr.assumptions["T-lib proto.Clone: returns a fresh deep copy, field-wise equal (repeated message fields: same length, elements unspecified)"] = true
+		return If{Tag: iv.Tag, Val: tr.cloneObj(st, pt.Elem(), iv.Val, 0)}, true
 	case "slices.Sort":
 		tr.libSort(f, args, st)
 		return nil, true
@@ -143,4 +156,52 @@ func (tr *Tr) arrayCountAxioms() {
 		// L4 all-zero array
 		tr.sc.fact(fmt.Sprintf("(forall ((lo Int) (hi Int) (v Int)) (! (=> (and (<= lo hi) (not (%s 0 v))) (= (%s ((as const (Array Int Int)) 0) lo hi v) 0)) :pattern ((%s ((as const (Array Int Int)) 0) lo hi v))))", cmp, f, f))
 	}
+}
+
+// cloneObj models proto.Clone on a message struct type t at reference ref: a fresh deep copy.
+func (tr *Tr) cloneObj(st *State, t types.Type, ref string, depth int) string {
+	if depth > 4 {
+		panic(subsetErr("proto.Clone: message nesting too deep"))
+	}
+	stt := t.Underlying().(*types.Struct)
+	nref := tr.freshRef(st, "clone")
+	for i := 0; i < stt.NumFields(); i++ {
+		f := stt.Field(i)
+		if tr.g.ignoredField(t, f) {
+			continue
+		}
+		loc := Loc{Kind: LField, Prefix: fieldPrefix(t, f.Name()), Ref: ref}
+		nloc := Loc{Kind: LField, Prefix: fieldPrefix(t, f.Name()), Ref: nref}
+		old := tr.loadAt(st, loc, f.Type())
+		switch ft := f.Type().Underlying().(type) {
+		case *types.Pointer:
+			oc := old.(Sc).T
+			if _, isStruct := ft.Elem().Underlying().(*types.Struct); isStruct {
+				nc := tr.cloneObj(st, ft.Elem(), oc, depth+1)
+				tr.storeAt(st, nloc, f.Type(), Sc{T: nc})
+			} else {
+				nc := tr.freshRef(st, "ccell")
+				v := tr.loadAt(st, Loc{Kind: LCell, Prefix: cellPrefix(ft.Elem()), Ref: oc}, ft.Elem())
+				tr.storeAt(st, Loc{Kind: LCell, Prefix: cellPrefix(ft.Elem()), Ref: nc}, ft.Elem(), v)
+				tr.storeAt(st, nloc, f.Type(), Sc{T: sIte(sEq(oc, "0"), "0", nc)})
+			}
+		case *types.Slice:
+			os := old.(Sl)
+			na := tr.freshRef(st, "carr")
+			et := ft.Elem()
+			if kindOf(et) == kInt && !isPointer(et) {
+				name := elemPrefix(et)
+				h := tr.heapVar(st, name, arr2(sortInt))
+				tr.fresh++
+				inner := smtName(fmt.Sprintf("cl!%d", tr.fresh))
+				tr.sc.declare(inner, "() (Array Int Int)")
+				tr.sc.fact(fmt.Sprintf("(forall ((k Int)) (! (=> (and (<= 0 k) (< k %s)) (= (select %s k) (select (select %s %s) (+ %s k)))) :pattern ((select %s k))))", os.Len, inner, h, os.Arr, os.Off, inner))
+				tr.setHeapVar(st, name, arr2(sortInt), tr.nameTerm(name, arr2(sortInt), sStore(h, na, inner)))
+			}
+			tr.storeAt(st, nloc, f.Type(), Sl{Arr: sIte(sEq(os.Arr, "0"), "0", na), Off: "0", Len: os.Len, Cap: os.Len})
+		default:
+			tr.storeAt(st, nloc, f.Type(), old)
+		}
+	}
+	return sIte(sEq(ref, "0"), "0", nref)
 }
